@@ -1,7 +1,7 @@
 #!/usr/bin/env python3
 """Runs the registered checks against the seeded breaking changes kept in /verif/seeded/<id>/.
 
-usage: tools/run_seeded.py [--in-repo] [--tier quick|thorough] [--all-props] [id ...]
+usage: tools/run_seeded.py [--in-repo] [--tier quick|thorough] [--all-props] [--jobs N] [id ...]
 
 Default: every patch is applied to a scratch git worktree of /repo under $VERIF_SCRATCH (default
 /dev/shm) and the checks run with VERIF_REPO pointing there, so /repo itself is never touched and
@@ -38,7 +38,7 @@ def main(argv):
     tier = "quick"
     if "--tier" in argv:
         tier = argv[argv.index("--tier") + 1]
-    ids = [a for a in argv if not a.startswith("--") and a != tier]
+    ids = [a for a in argv if not a.startswith("--") and a != tier and not (a.isdigit() and "--jobs" in argv)]
     sdir = os.path.join(HERE, "seeded")
     if not ids:
         ids = sorted(d for d in os.listdir(sdir) if os.path.isfile(os.path.join(sdir, d, "patch.diff")))
@@ -47,7 +47,7 @@ def main(argv):
     rpath = os.path.join(sdir, "RESULTS.json")
     if os.path.exists(rpath):
         results = json.load(open(rpath))
-    for sid in ids:
+    def one(sid):
         d = os.path.join(sdir, sid)
         meta = json.load(open(os.path.join(d, "meta.json")))
         props = claimed if all_props else [p for p in meta.get("check_with", [meta["property"]]) if p in claimed]
@@ -61,7 +61,7 @@ def main(argv):
             try:
                 a = sh("git -C %s apply %s" % (REPO, patch))
                 if a.returncode != 0:
-                    print(sid, "patch does not apply:", a.stdout[-300:]); continue
+                    print(sid, "patch does not apply:", a.stdout[-300:]); return None
                 res = run_checks(props, tier, env)
             finally:
                 sh("git -C %s checkout -- ." % REPO)
@@ -75,7 +75,7 @@ def main(argv):
                     print("worktree failed", a.stdout); return 2
                 a = sh("git -C %s apply %s" % (wt, patch))
                 if a.returncode != 0:
-                    print(sid, "patch does not apply:", a.stdout[-300:]); continue
+                    print(sid, "patch does not apply:", a.stdout[-300:]); return None
                 env["VERIF_REPO"] = wt
                 res = run_checks(props, tier, env)
             finally:
@@ -92,6 +92,16 @@ def main(argv):
                         "caught_by": sorted(p for p, r in res.items() if r["exit"] == 1)}
         for p, r in sorted(res.items()):
             print("%-28s %s exit=%d %s" % (sid, p, r["exit"], r["kind"] or "-"))
+    jobs = 1
+    if "--jobs" in argv:
+        jobs = int(argv[argv.index("--jobs") + 1])
+    if in_repo or jobs <= 1:
+        for sid in ids:
+            one(sid)
+    else:
+        from concurrent.futures import ThreadPoolExecutor
+        with ThreadPoolExecutor(max_workers=jobs) as ex:
+            list(ex.map(one, ids))
     json.dump(results, open(rpath, "w"), indent=1, sort_keys=True)
     return 0
 
